@@ -13,6 +13,7 @@ use crate::{
         RuntimeError, RuntimeResult,
         context::{ThreadContext, TransactionLogger},
         eval::eval_literal_expr,
+        validator::{ConstraintValidator, ValidationError},
     },
     schema::{
         DatabaseItem,
@@ -36,6 +37,7 @@ use rkyv::{
     util::AlignedVec,
 };
 
+use std::collections::HashSet;
 use std::fmt::{Display, Formatter, Result as FmtResult};
 
 #[derive(Archive, Serialize, Deserialize, Clone, Debug, PartialEq)]
@@ -840,6 +842,9 @@ impl DdlExecutor {
         column_idx: usize,
         action: &AlterColumnActionInstr,
     ) -> RuntimeResult<String> {
+        let table_id = relation.object_id();
+        let table_name = relation.name().to_string();
+        let table_schema = relation.schema().clone();
         let schema = relation.schema_mut();
         let column = schema
             .columns
@@ -856,6 +861,26 @@ impl DdlExecutor {
                 column.default = None;
             }
             AlterColumnActionInstr::SetNotNull { .. } => {
+                // Rows that already hold NULL in the column would contradict the constraint
+                let validator = ConstraintValidator::new(
+                    &table_schema,
+                    column_name.clone(),
+                    self.ctx.clone(),
+                );
+                if validator.search_table(
+                    table_id,
+                    &[column_idx],
+                    &[DataType::Null],
+                    false,
+                    &HashSet::new(),
+                )? {
+                    return Err(RuntimeError::ValidationError(
+                        ValidationError::NonNullConstraintViolated(DatabaseItem::Column(
+                            table_name,
+                            column_name,
+                        )),
+                    ));
+                }
                 column.is_non_null = true;
             }
             AlterColumnActionInstr::DropNotNull { .. } => {
